@@ -97,7 +97,43 @@ func (w *verifC14World) step(r *rand.Rand) string {
 		}
 		return w.vals[r.Intn(len(w.vals))]
 	}
-	switch op := r.Intn(12); {
+	switch op := r.Intn(15); {
+	case op == 12:
+		// a global initialised with the address of a block of an earlier function (the block's ID is printed with
+		// the global, before the function itself)
+		var cands []*Func
+		for _, f := range w.funcs {
+			if len(f.Blocks) >= 2 {
+				cands = append(cands, f)
+			}
+		}
+		if len(cands) == 0 {
+			return "skip"
+		}
+		f := cands[r.Intn(len(cands))]
+		w.m.NewGlobalDef(name(), constant.NewBlockAddress(f, f.Blocks[1+r.Intn(len(f.Blocks)-1)]))
+		return "global blockaddress"
+	case op == 13:
+		// terminate the current block with an indirectbr over the blocks of the function
+		b := w.blocks[len(w.blocks)-1]
+		f := w.funcs[len(w.funcs)-1]
+		if b.Term != nil || len(f.Blocks) < 2 {
+			return "skip"
+		}
+		addr := constant.NewBlockAddress(f, f.Blocks[0])
+		b.NewIndirectBr(addr, f.Blocks[0], f.Blocks[len(f.Blocks)-1])
+		return "indirectbr"
+	case op == 14:
+		// retarget an indirectbr through its operand slots
+		for _, f := range w.funcs {
+			for _, b := range f.Blocks {
+				if ib, ok := b.Term.(*TermIndirectBr); ok && len(ib.ValidTargets) > 0 {
+					ib.ValidTargets[r.Intn(len(ib.ValidTargets))] = f.Blocks[r.Intn(len(f.Blocks))]
+					return "retarget indirectbr"
+				}
+			}
+		}
+		return "skip"
 	case op == 10:
 		// edit a field of a global after construction (its pointer type is computed at construction)
 		if len(w.m.Globals) == 0 {
